@@ -21,11 +21,18 @@ CHECKS = {
     "C06": ("every generated valid instance is solved in a child process in the release and the overflow-checked "
             "profile under a watchdog; TLC accepts a trace only if it ends with status ok (no action for panic/timeout)", "6-C06"),
     "C07": ("Output.tla!CoverageOK + lower bound recomputed in TLA+; unserved demand monotone over stage snapshots", "6-C07"),
+    "C08": ("hook H1 records every schedule the real ParallelLocalSearchSolver accepts; TracePipe.tla!P_C08_descent requires a "
+            "strict lexicographic decrease of the objective RECOMPUTED by the specification (unserved, violation, vehicles, costs); "
+            "P_C08_result: result = last accepted step and <=lex start; P_C08_fix: the real solver re-run on its own result accepts "
+            "nothing and returns the same schedule", "6-C08"),
     "C09": ("SchedView.tla!CachesOK (every cached figure of tours, schedule, transitions, depots against the from-scratch "
             "TLA+ definitions) evaluated by TLC on every state of adaptive random walks over all 12 public modifications, "
             "on every pipeline stage snapshot, and (tour level) on the exhaustive Gen_Tour cases", "6-C09"),
     "C10": ("SchedView.tla!SchedInv (tours, formations, limits, sorted listings, cycle partition + successor probe) evaluated "
             "by TLC on every state of the walks and every pipeline stage snapshot", "6-C10"),
+    "C11": ("rsv ls --mode cand enumerates RSSchedParallelNeighborhood::neighbors_of on random (not only improving) walks; TLC "
+            "evaluates SchedView.tla!SchedInv and CachesOK on every projected candidate; enumeration must not panic and the base "
+            "projection digest must be unchanged", "6-C11"),
     "C12": ("Gen_Tour.tla: TLC enumerates ALL tiny networks (<=2 quick / <=3 thorough activities, ties, zero shunting, forbidden "
             "and asymmetric dead-heads), checks the laws of the reference insert/remove semantics and emits every valid tour, "
             "path and segment; rsv tour executes them on the real Tour code; TraceTour.tla validates every result", "6-C12"),
@@ -44,8 +51,6 @@ CHECKS = {
 }
 
 NOT_YET = {
-    "C08": "check under construction in this session (local-search trajectory validation)",
-    "C11": "check under construction in this session (neighbourhood candidates)",
     "C14": "check under construction in this session (covering circulation)",
     "C18": "check under construction in this session (HTTP service)",
 }
